@@ -1030,6 +1030,24 @@ def check_did_change(ck, R):
               "%s.did_change %s" % (cls.name, why), fa.where())
 
 
+def check_every_symbol_watched(ck, R):
+    """Whatever a referenced symbol resolves to, some rule watches it, so that re-binding it is noticed: every
+    normal exit of _visit_dependency (for a symbol that is not required) follows the addition of a rule
+    (result.add / collect_transitive_dependencies), except the exits for a function without globals and for
+    black-listed objects."""
+    v = FA(ck, CH + ".HashRule._visit_dependency")
+    adds = v.nodes_all([c for c in v.calls("add") if A.norm(A.call_recv(c)) == "result"] + v.calls("collect_transitive_dependencies"))
+    # exits that are allowed to add nothing: `if not hasattr(src_fn, '__globals__'): return`
+    allowed = [n.id for n in v.cfg.nodes if n.kind == "stmt" and isinstance(n.ast, ast.Return) and v.enclosing(n.ast, ast.If) is not None
+               and "__globals__" in A.norm(v.enclosing(n.ast, ast.If).test)]
+    p = v.cfg.path(v.cfg.entry, v.cfg.exit, removed=set(adds) | set(allowed))
+    ok = p is None
+    ck.ob(R, v.key(None, "every-symbol-watched"), ok, "every exit adds a rule for the symbol" if ok else
+          "_visit_dependency can finish without adding any rule for a symbol that resolves to an object no strategy matches (functools.partial, a class, "
+          "an arbitrary instance): nothing watches that symbol, so re-binding it later to a function or a value keeps the cached version "
+          "(path %s)" % v.cfg.describe_path(p), v.where())
+
+
 def check_resolver_closures(ck, R):
     ck.rule(R, "resolvers re-resolve from the root: a function passed as a rule's resolver closes over the global table "
                "and name parts only, never over an object obtained by evaluating the dotted chain", 2)
@@ -1080,6 +1098,23 @@ def check_resolver_closures(ck, R):
                   "(class re-executed, module attribute rebound) the rule keeps looking at the old object and did_change never fires" % bad,
                   A.loc(v.fi, node))
     ck.need(n_res >= 2, "_visit_dependency: resolver closures not found")
+    # a resolver tells "the name is gone" apart from "the name is bound to None": None is a legal tracked value, so a
+    # resolver that answers None for a missing name makes the deletion of a None-valued variable invisible
+    for node in ast.walk(v.node):
+        if isinstance(node, ast.FunctionDef) and node is not v.node and "resolver" in node.name and node.name not in ("resolve_symbol", "memento_fn_resolver"):
+            nones = []
+            for x in ast.walk(node):
+                if isinstance(x, ast.IfExp) and A.is_none(x.orelse) and isinstance(x.test, ast.Compare) and isinstance(x.test.ops[0], ast.In):
+                    nones.append(x)
+                if isinstance(x, ast.Call) and A.call_attr(x) == "getattr" and len(x.args) == 3 and A.is_none(x.args[2]):
+                    nones.append(x)
+                if isinstance(x, ast.Call) and A.call_attr(x) == "get" and "global_table" in A.norm(A.call_recv(x)) and (len(x.args) == 1 or A.is_none(x.args[1])):
+                    nones.append(x)
+            ck.ob(R, "%s::def %s@%s::missing-is-not-none" % (v.qual, node.name, "loop" if v.enclosing(node, ast.For) is not None else "top"), not nones,
+                  "a missing name resolves to a sentinel of its own" if not nones else
+                  "`%s`: the resolver answers None for a name that no longer exists, the same as for a name bound to None: deleting a tracked variable "
+                  "whose value is None leaves the cached version in place although a fresh computation sees an undefined symbol" % (A.short(nones[0], 60) if nones else ""),
+                  A.loc(v.fi, nones[0] if nones else node))
     # rules that watch for a symbol to appear must also look it up from the root each time
     for c in v.calls("UndefinedSymbolHashRule"):
         base = c.args[0] if c.args else A.kwarg(c, "ref")
